@@ -48,6 +48,55 @@ Definition expected_write_sites : list N := [
 Lemma gen_write_sites : write_sites = expected_write_sites.
 Proof. reflexivity. Qed.
 
+(* the call graph above the write sites: every call (method, path / UFCS, or bare after a `use`) of a function that can
+   reach one of them.  A documented API that starts calling a writer a second time (server::Connection::new calling
+   send_control_stream_headers again, ...) is a new row. *)
+Definition expected_writer_calls : list N := [
+  220204973076472 (* client/connection.rs|poll_close|poll_control|x1 *);
+  110361032146187 (* client/connection.rs|send_request|write|x1 *);
+  38679175255429 (* client/connection.rs|shutdown|shutdown|x1 *);
+  241287665189353 (* client/connection.rs|wait_idle|poll_close|x1 *);
+  115889103166002 (* client/stream.rs|finish|finish|x1 *);
+  133124101379033 (* client/stream.rs|send_data|send_data|x1 *);
+  122302395613437 (* client/stream.rs|send_trailers|send_trailers|x1 *);
+  167828741085947 (* connection.rs|finish|poll_finish|x1 *);
+  263892213736713 (* connection.rs|finish|write|x1 *);
+  13482537145611 (* connection.rs|new|send_control_stream_headers|x1 *);
+  128829812730102 (* connection.rs|poll_control|poll_grease_stream|x1 *);
+  60156865862783 (* connection.rs|poll_grease_stream|poll_finish|x1 *);
+  185481792600116 (* connection.rs|poll_grease_stream|send_data|x1 *);
+  245053616450851 (* connection.rs|send_control_stream_headers|write|x3 *);
+  159354077639967 (* connection.rs|send_data|write|x1 *);
+  17585822420554 (* connection.rs|send_trailers|write|x1 *);
+  234181147598681 (* connection.rs|shutdown|write|x1 *);
+  211206760408200 (* frame.rs|poll_finish|poll_finish|x1 *);
+  78660384600797 (* frame.rs|send_data|send_data|x1 *);
+  267363584846106 (* quic.rs|fmt|finish|x2 *);
+  117150961622846 (* server/connection.rs|accept|poll_accept_request_stream_internal|x1 *);
+  155105933791331 (* server/connection.rs|accept|shutdown|x1 *);
+  199914476776555 (* server/connection.rs|poll_accept_request_stream|poll_accept_request_stream_internal|x1 *);
+  91540266651699 (* server/connection.rs|poll_accept_request_stream_internal|poll_control|x1 *);
+  130781127746512 (* server/connection.rs|poll_control|poll_next_control|x1 *);
+  132971073138578 (* server/connection.rs|poll_next_control|poll_control|x1 *);
+  75608015697243 (* server/connection.rs|shutdown|shutdown|x1 *);
+  46553785725809 (* server/request.rs|resolve|send_response|x1 *);
+  159355952676271 (* server/request.rs|resolve_request|resolve|x1 *);
+  233040534344236 (* server/stream.rs|finish|finish|x1 *);
+  118845893263919 (* server/stream.rs|send_data|send_data|x1 *);
+  130140801999598 (* server/stream.rs|send_response|write|x1 *);
+  185391324238666 (* server/stream.rs|send_trailers|send_trailers|x1 *);
+  19985617346734 (* stream.rs|fmt|finish|x1 *);
+  186062395757988 (* stream.rs|poll_close|poll_finish|x1 *);
+  268925354750747 (* stream.rs|poll_finish|poll_finish|x1 *);
+  91153604531702 (* stream.rs|poll_send|poll_send|x1 *);
+  90945222058526 (* stream.rs|poll_shutdown|poll_finish|x1 *);
+  47015012297883 (* stream.rs|poll_write|poll_send|x2 *);
+  255146904518510 (* stream.rs|send_data|send_data|x1 *);
+  218780568362383 (* stream.rs|write|send_data|x1 *)
+].
+Lemma gen_writer_calls : writer_calls = expected_writer_calls.
+Proof. reflexivity. Qed.
+
 (* the inserts of TryFrom<Config>: every fixed identifier is a registered HTTP/3 setting and not an HTTP/2-only one *)
 Definition ins_okb (i : option N * N) : bool :=
   match fst i with
@@ -386,7 +435,7 @@ Definition op_ok (o : op) : Prop :=
   | OData _ p => nonempty_chunks p /\ len (concat p) < 2 ^ 62
   | OFinish _ g => g < grease_range
   | OShutdown n => n < 2 ^ 64
-  | OStop _ | ODrop _ | OStopSending _ | OPoll => True
+  | OStop _ | ODrop _ | OStopSending _ | OPoll | OStopControl => True
   end.
 
 Lemma nth_n_In {A} (l : list A) i x : nth_n l i = Some x -> In x l.
@@ -485,6 +534,7 @@ Proof.
   intros Hc Hm. unfold inner_shutdown.
   destruct (shutdown_checks_conn_error && c_conn_error c); [exists c; auto|].
   destruct (match c_sent_closing c with Some s => cmp_skip s max_id | None => false end); [exists c; auto|].
+  destruct (c_ctl_stopped c); [eexists; split; [reflexivity|apply (cinv_fields c); auto]|].
   destruct gen_setup as (_ & _ & _ & _ & _ & -> & _).
   destruct (goaway_wb max_id Hm) as (w & E & Hgo). unfold write_to. rewrite E. eexists. split; [reflexivity|].
   assert (Hc' : cinv (set_closing c max_id)) by (apply (cinv_fields c); auto).
@@ -626,7 +676,7 @@ Qed.
 
 Lemma step_ok c o : cinv c -> op_ok o -> exists c', step c o = Ok c' /\ cinv c'.
 Proof.
-  intros Hc Ho. destruct o as [f gs gf acc| |sid out|b|h b|h p|h g|h|h|h|n]; cbn [op_ok] in Ho.
+  intros Hc Ho. destruct o as [f gs gf acc| |sid out|b|h b|h p|h g|h|h| |h|n]; cbn [op_ok] in Ho.
   - (* a control frame of the peer *)
     destruct Ho as [Hgs Hgf]. cbn [step]. destruct (c_conn_error c); [exists c; auto|].
     destruct f as [|id| | |].
@@ -732,6 +782,7 @@ Proof.
     cbn [set_handles c_server c_streams c_next_uni c_control c_handles c_grease_id c_next_bidi c_last_accepted].
     cinv_split; try assumption.
     apply map_nth_Forall; [exact Hh|]. intros x Hx. exact Hx.
+  - eexists. split; [reflexivity|apply (cinv_fields c); auto].
   - (* drop *)
     cbn [step]. destruct (live_handle c h) as [hd|]; [|exists c; auto].
     eexists. split; [reflexivity|].
